@@ -301,6 +301,8 @@ impl Axecutor {
 
         let flags = self.state.rflags;
         calculate_rm_imm![u16f; u8; self; i; |d:u16, s:u8| {
+            // The 8-bit immediate is sign-extended to the operand size
+            let s = s as i8 as i16 as u16;
             let result = (d as u32).wrapping_add(s as u32).wrapping_add(u32::from(flags & FLAG_CF != 0));
 
             (
@@ -319,6 +321,8 @@ impl Axecutor {
 
         let flags = self.state.rflags;
         calculate_rm_imm![u32f; u8; self; i; |d:u32, s:u8| {
+            // The 8-bit immediate is sign-extended to the operand size
+            let s = s as i8 as i32 as u32;
             let result = (d as u64).wrapping_add(s as u64).wrapping_add(u64::from(flags & FLAG_CF != 0));
 
             (
@@ -337,6 +341,8 @@ impl Axecutor {
 
         let flags = self.state.rflags;
         calculate_rm_imm![u64f; u8; self; i; |d:u64, s:u8| {
+            // The 8-bit immediate is sign-extended to the operand size
+            let s = s as i8 as i64 as u64;
             let result = (d as u128).wrapping_add(s as u128).wrapping_add(u128::from(flags & FLAG_CF != 0));
 
             (
